@@ -267,7 +267,7 @@ def concrete_items(it, v):
         return tuple_items(it, v)
     if k == "ref":
         c = st.class_id_of(v)
-        if c is not None and it.ct.name(c) in ("list", "deque", "tuple"):
+        if c is not None and it.ct.name(c) in ("list", "deque", "tuple", "set", "frozenset"):
             lo, hi = st.get(v, "$lo"), st.get(v, "$hi")
             if z3.is_int_value(lo) and z3.is_int_value(hi):
                 arr = st.get(v, "$arr")
